@@ -17,6 +17,8 @@ import (
 	"github.com/awslabs/operatorpkg/status"
 	"github.com/google/uuid"
 	corev1 "k8s.io/api/core/v1"
+	appsv1 "k8s.io/api/apps/v1"
+	policyv1 "k8s.io/api/policy/v1"
 	storagev1 "k8s.io/api/storage/v1"
 	apierrors "k8s.io/apimachinery/pkg/api/errors"
 	"k8s.io/apimachinery/pkg/api/resource"
@@ -27,6 +29,8 @@ import (
 	"sigs.k8s.io/controller-runtime/pkg/client"
 	ctrlfake "sigs.k8s.io/controller-runtime/pkg/client/fake"
 	"sigs.k8s.io/controller-runtime/pkg/client/interceptor"
+	"sigs.k8s.io/controller-runtime/pkg/reconcile"
+	"k8s.io/apimachinery/pkg/types"
 
 	"sigs.k8s.io/karpenter/pkg/apis"
 	v1 "sigs.k8s.io/karpenter/pkg/apis/v1"
@@ -241,7 +245,7 @@ func (w *world) addNode(id int) {
 		nl[k] = v
 	}
 	node := test.Node(test.NodeOptions{ObjectMeta: metav1.ObjectMeta{Name: name, Labels: nl, Finalizers: []string{"karpenter.sh/test-finalizer"}},
-		ProviderID: providerID(id), Allocatable: alloc, Capacity: alloc})
+		ProviderID: providerID(id), Allocatable: alloc, Capacity: alloc, Taints: otherTaints(id)})
 	node.Namespace = "" // cluster-scoped, as in a real API server (RequireNoScheduleTaint reads it by name only)
 	kit.Apply(w.ctx, w.inner, node)
 	if err := w.cluster.UpdateNode(w.ctx, node); err != nil {
@@ -291,6 +295,10 @@ var smallScheme = func() *runtime.Scheme {
 	s.AddKnownTypes(corev1.SchemeGroupVersion, &corev1.Node{}, &corev1.NodeList{}, &corev1.Pod{}, &corev1.PodList{}, &corev1.Event{}, &corev1.EventList{})
 	metav1.AddToGroupVersion(s, storagev1.SchemeGroupVersion)
 	s.AddKnownTypes(storagev1.SchemeGroupVersion, &storagev1.CSINode{}, &storagev1.CSINodeList{}, &storagev1.VolumeAttachment{}, &storagev1.VolumeAttachmentList{})
+	metav1.AddToGroupVersion(s, policyv1.SchemeGroupVersion)
+	s.AddKnownTypes(policyv1.SchemeGroupVersion, &policyv1.PodDisruptionBudget{}, &policyv1.PodDisruptionBudgetList{})
+	metav1.AddToGroupVersion(s, appsv1.SchemeGroupVersion)
+	s.AddKnownTypes(appsv1.SchemeGroupVersion, &appsv1.DaemonSet{}, &appsv1.DaemonSetList{})
 	gv := schema.GroupVersion{Group: apis.Group, Version: "v1"}
 	metav1.AddToGroupVersion(s, gv)
 	s.AddKnownTypes(gv, &v1.NodePool{}, &v1.NodePoolList{}, &v1.NodeClaim{}, &v1.NodeClaimList{})
@@ -564,6 +572,10 @@ type jOp struct {
 	FTaint []jFault `json:"f_taint,omitempty"`   // RequireNoScheduleTaint(add) per candidate
 	FCond  []jFault `json:"f_cond,omitempty"`    // DisruptionReason condition per candidate
 	FCreate []int   `json:"f_create,omitempty"`  // replacement indexes whose Create fails
+	// why every replacement fails before its Create call: "get" = the NodePool cannot be read, "limits" = the
+	// NodePool's limits are exceeded (f_create then lists every index)
+	PoolFault string `json:"pool_fault,omitempty"`
+	Via       string `json:"via,omitempty"` // "controller": the command was started through Controller.Reconcile / disrupt()
 	FGet   []jFault `json:"f_get,omitempty"`     // Get of a replacement in waitOrTerminate (Kind nf | fail)
 	FDel   []jFault `json:"f_delete,omitempty"`  // Delete of a candidate NodeClaim
 	FUnt   []jFault `json:"f_untaint,omitempty"` // RequireNoScheduleTaint(remove)
@@ -616,8 +628,9 @@ func (w *world) exec(o *jOp) []effect {
 		k := w.nextID
 		w.nextID++
 		w.curCmd = k
+		o.K = k
 		cmd := &disruption.Command{
-			Method:            disruption.NewDrift(w.c, w.cluster, w.prov, w.recorder, w.clk),
+			Method:            w.method(k),
 			CreationTimestamp: w.clk.Now(),
 			ID:                uuid.New(),
 			Results:           scheduling.Results{},
@@ -642,13 +655,57 @@ func (w *world) exec(o *jOp) []effect {
 		}
 		w.setFaults(o.FTaint, "Node", "Node", nodeName)
 		w.setFaults(o.FCond, "NodeClaim", "NodeClaim", nodeName)
-		for _, j := range o.FCreate {
-			w.faults[fmt.Sprintf("write/NodeClaim/repl-%d-%d", k, j)] = &fault{Site: "write", Kind: "fail", N: 1, left: 1}
+		switch o.PoolFault {
+		case "":
+			for _, j := range o.FCreate {
+				w.faults[fmt.Sprintf("write/NodeClaim/repl-%d-%d", k, j)] = &fault{Site: "write", Kind: "fail", N: 1, left: 1}
+			}
+		case "get":
+			w.faults["get/NodePool/pool"] = &fault{Site: "get", Kind: "fail", N: 1000, left: 1000}
+		case "limits":
+			np := &v1.NodePool{}
+			must(w.inner.Get(w.ctx, client.ObjectKey{Name: "pool"}, np))
+			np.Spec.Limits = v1.Limits(corev1.ResourceList{corev1.ResourceCPU: resource.MustParse("1")})
+			must(w.inner.Update(w.ctx, np))
 		}
 		w.mu.Lock()
 		w.cmds[cmd.ID] = &cmdInfo{ID: k, Cmd: cmd, Deleted: map[int]bool{}}
 		w.mu.Unlock()
-		err := w.queue.StartCommand(w.ctx, cmd)
+		var err error
+		o.Via = ""
+		if w.viaControllerOK(o) {
+			// The command reaches the queue the way it does in production: Controller.Reconcile -> disrupt() (candidate
+			// discovery, budgets, ComputeCommands of a scripted method that returns this command, CreationTimestamp / ID /
+			// Method assignment, StartCommand in parallel). Only used when the clean-up at the head of Reconcile has
+			// nothing to do, so that the step is exactly one StartCommand.
+			scr := &scriptedMethod{Method: cmd.Method, cmds: []disruption.Command{{Results: cmd.Results, Candidates: cmd.Candidates, Replacements: cmd.Replacements}}}
+			ctrl := disruption.NewController(w.clk, w.c, w.prov, w.cp, w.recorder, w.cluster, w.queue, cost.NewClusterCost(w.ctx, w.cp, w.inner), disruption.WithMethods(scr))
+			_, cerr := ctrl.Reconcile(w.ctx)
+			if scr.called {
+				o.Via = "controller"
+				err = cerr
+				w.mu.Lock()
+				delete(w.cmds, cmd.ID)
+				if started := w.queue.ProviderIDToCommand[providerID(o.Cands[0])]; cerr == nil && started != nil && w.cmds[started.ID] == nil {
+					cmd = started
+					w.cmds[cmd.ID] = &cmdInfo{ID: k, Cmd: cmd, Deleted: map[int]bool{}}
+				} else if cerr == nil {
+					panic("the controller reported success but the command is not in the queue")
+				}
+				w.mu.Unlock()
+			} else if cerr != nil {
+				panic("Controller.Reconcile failed before computing commands: " + cerr.Error())
+			}
+		}
+		if o.Via == "" {
+			err = w.queue.StartCommand(w.ctx, cmd)
+		}
+		if o.PoolFault == "limits" {
+			np := &v1.NodePool{}
+			must(w.inner.Get(w.ctx, client.ObjectKey{Name: "pool"}, np))
+			np.Spec.Limits = nil
+			must(w.inner.Update(w.ctx, np))
+		}
 		switch {
 		case err == nil:
 			o.Ret = "Started"
@@ -676,15 +733,21 @@ func (w *world) exec(o *jOp) []effect {
 		w.setFaults(o.FDel, "NodeClaim-delete", "NodeClaim-delete", nodeName)
 		w.setFaults(o.FUnt, "Node", "Node", nodeName)
 		w.setFaults(o.FClr, "NodeClaim", "NodeClaim", nodeName)
-		nc := &v1.NodeClaim{}
-		if err := w.inner.Get(w.ctx, client.ObjectKey{Name: nodeName(o.Node)}, nc); err != nil {
-			panic(err)
+		// The request travels the way it does under the manager: the only key the queue ever enqueues for a command is
+		// the NodeClaim of cmd.Candidates[0] (StartCommand; controller-runtime re-queues the same key), and
+		// reconcile.AsReconciler reads that object before it calls Queue.Reconcile. (The wrapper's own Get is not a fault site.)
+		key := nodeName(o.Node)
+		if owner != nil {
+			key = owner.Candidates[0].NodeClaim.Name
 		}
-		res, err := w.queue.Reconcile(w.ctx, nc)
+		counted := &countingReconciler{q: w.queue}
+		res, err := reconcile.AsReconciler[*v1.NodeClaim](w.inner, counted).Reconcile(w.ctx, reconcile.Request{NamespacedName: types.NamespacedName{Name: key}})
 		if err != nil {
 			panic("Queue.Reconcile returned an error: " + err.Error())
 		}
 		switch {
+		case counted.calls == 0:
+			o.Ret = "RDropped"
 		case owner == nil:
 			o.Ret = "RNoCmd"
 		case res.RequeueAfter > 0:
@@ -694,7 +757,7 @@ func (w *world) exec(o *jOp) []effect {
 		default:
 			o.Ret = "RFailed"
 		}
-		if owner != nil && o.Ret != "RRequeue" {
+		if owner != nil && o.Ret != "RRequeue" && o.Ret != "RDropped" {
 			w.mu.Lock()
 			delete(w.cmds, owner.ID)
 			w.mu.Unlock()
@@ -724,6 +787,10 @@ func (w *world) exec(o *jOp) []effect {
 				must(w.inner.Get(w.ctx, client.ObjectKey{Name: r.Name}, nc))
 				nc.Status.ProviderID = fmt.Sprintf("fake:///repl-%d-%d", r.K, r.J)
 				nc.StatusConditions(status.WithClock(w.clk)).SetTrue(v1.ConditionTypeLaunched)
+				if r.J%2 == 1 && !r.Init {
+					// "not Initialized" also comes as a condition that is present but not True
+					nc.StatusConditions(status.WithClock(w.clk)).SetUnknown(v1.ConditionTypeInitialized)
+				}
 				must(w.inner.Status().Update(w.ctx, nc))
 				must(w.inner.Get(w.ctx, client.ObjectKey{Name: r.Name}, nc))
 				w.cluster.UpdateNodeClaim(nc)
@@ -776,6 +843,25 @@ func (w *world) exec(o *jOp) []effect {
 			w.cluster.DeleteNode(nodeName(o.Node))
 			w.gone[o.Node] = true
 		}
+	case "nodedel":
+		// the Node object gets a deletionTimestamp (it keeps its finalizer)
+		o.Ret = "EnvOk"
+		if !w.gone[o.Node] && w.objState(o.Node) == "NPresent" {
+			node := &corev1.Node{}
+			must(w.inner.Get(w.ctx, client.ObjectKey{Name: nodeName(o.Node)}, node))
+			must(w.inner.Delete(w.ctx, node))
+		}
+	case "nodegone":
+		// the Node object leaves the API and the informer delivers the deletion; the NodeClaim remains
+		o.Ret = "EnvOk"
+		if !w.gone[o.Node] && w.objState(o.Node) != "NGone" {
+			node := &corev1.Node{}
+			must(w.inner.Get(w.ctx, client.ObjectKey{Name: nodeName(o.Node)}, node))
+			node.Finalizers = nil
+			must(w.inner.Update(w.ctx, node))
+			must(client.IgnoreNotFound(w.inner.Delete(w.ctx, node)))
+			w.cluster.DeleteNode(nodeName(o.Node))
+		}
 	case "deliver":
 		o.Ret = "EnvOk"
 		w.deliver()
@@ -797,6 +883,49 @@ func (w *world) exec(o *jOp) []effect {
 	return es
 }
 
+// scriptedMethod is a disruption method whose decision is given: every node is eligible, the computed commands are
+// the prepared ones. Reason / class / consolidation type are those of the embedded real method.
+type scriptedMethod struct {
+	disruption.Method
+	cmds   []disruption.Command
+	called bool
+}
+
+func (s *scriptedMethod) ShouldDisrupt(context.Context, *disruption.Candidate) bool { return true }
+func (s *scriptedMethod) ComputeCommands(context.Context, map[string]int, ...*disruption.Candidate) ([]disruption.Command, error) {
+	s.called = true
+	return s.cmds, nil
+}
+
+// viaControllerOK: a fault-free start, and the clean-up pass at the head of Controller.Reconcile is a no-op now.
+func (w *world) viaControllerOK(o *jOp) bool {
+	if len(o.FTaint)+len(o.FCond)+len(o.FCreate) > 0 || o.PoolFault != "" {
+		return false
+	}
+	s := w.snapshot()
+	for _, r := range s.Repls {
+		if r.InSt && !r.Launched {
+			return false
+		}
+	}
+	for _, nd := range s.Nodes {
+		if !nd.Gone && nd.Owner < 0 && !nd.MView && (nd.Taint || nd.Cond) {
+			return false
+		}
+	}
+	return true
+}
+
+type countingReconciler struct {
+	q     *disruption.Queue
+	calls int
+}
+
+func (c *countingReconciler) Reconcile(ctx context.Context, nc *v1.NodeClaim) (reconcile.Result, error) {
+	c.calls++
+	return c.q.Reconcile(ctx, nc)
+}
+
 func must(err error) {
 	if err != nil {
 		panic(err)
@@ -807,7 +936,8 @@ func must(err error) {
 
 type nodeSnap struct {
 	Taint, Cond, Del, Mark, StDel, MView bool
-	Gone                                bool // Node and NodeClaim are gone from the API and from the cluster state
+	Gone                                bool   // Node and NodeClaim are gone from the API and from the cluster state
+	Obj                                 string // the Node object: NPresent | NDeleting | NGone
 	Owner                               int  // -1 none
 }
 
@@ -831,6 +961,8 @@ type snapshot struct {
 	Now   int64
 	// consistency of the provider-id map with the commands it points to
 	MapConsistent bool
+	// a taint other than karpenter.sh/disrupted:NoSchedule disappeared from a Node
+	OtherTaintLost bool
 }
 
 func (w *world) snapshot() snapshot {
@@ -849,10 +981,21 @@ func (w *world) snapshot() snapshot {
 			if !apierrors.IsNotFound(errNode) || !apierrors.IsNotFound(errClaim) || cached {
 				panic("a vanished node is still visible")
 			}
-		} else if errNode != nil || errClaim != nil || !cached {
+			node = &corev1.Node{}
+		} else if errClaim != nil || !cached || (errNode != nil && !apierrors.IsNotFound(errNode)) {
 			panic("candidate node not in the API or not in the cluster state")
 		}
-		ns := nodeSnap{Taint: hasTaint(node), Cond: hasCond(nc), Del: !nc.DeletionTimestamp.IsZero(), Mark: flag, StDel: stdel, MView: mview, Gone: w.gone[id], Owner: -1}
+		obj := "NPresent"
+		switch {
+		case errNode != nil:
+			obj = "NGone"
+		case !node.DeletionTimestamp.IsZero():
+			obj = "NDeleting"
+		}
+		if obj != "NGone" && !otherTaintsIntact(id, node) {
+			s.OtherTaintLost = true
+		}
+		ns := nodeSnap{Taint: hasTaint(node), Cond: hasCond(nc), Del: !nc.DeletionTimestamp.IsZero(), Mark: flag, StDel: stdel, MView: mview, Gone: w.gone[id], Obj: obj, Owner: -1}
 		if cmd, ok := w.queue.ProviderIDToCommand[providerID(id)]; ok {
 			ci := w.cmds[cmd.ID]
 			if ci == nil {
@@ -871,6 +1014,9 @@ func (w *world) snapshot() snapshot {
 		if _, err := fmt.Sscanf(pid, "fake:///node-%03d", &id); err != nil || id >= w.n {
 			s.MapConsistent = false
 		}
+	}
+	if w.queue.IsEmpty() != (len(w.queue.ProviderIDToCommand) == 0) || len(w.queue.GetCommands()) != len(cmds) {
+		s.MapConsistent = false
 	}
 	sort.Slice(cmds, func(a, b int) bool { return w.cmds[cmds[a].ID].ID < w.cmds[cmds[b].ID].ID })
 	for _, cmd := range cmds {
@@ -901,7 +1047,7 @@ func (s snapshot) gallina() string {
 		if n.Owner >= 0 {
 			owner = fmt.Sprintf("(Some %s)", gnat(n.Owner))
 		}
-		return fmt.Sprintf("(mkNode %s %s %s %s %s %s, %s, %s)", kit.GBool(n.Taint), kit.GBool(n.Cond), kit.GBool(n.Del), kit.GBool(n.Mark), kit.GBool(n.StDel), kit.GBool(n.Gone), kit.GBool(n.MView), owner)
+		return fmt.Sprintf("(mkNode %s %s %s %s %s %s %s, %s, %s)", kit.GBool(n.Taint), kit.GBool(n.Cond), kit.GBool(n.Del), kit.GBool(n.Mark), kit.GBool(n.StDel), kit.GBool(n.Gone), map[bool]string{true: "NGone", false: n.Obj}[n.Gone], kit.GBool(n.MView), owner)
 	})
 	cmds := kit.GListOf(s.Cmds, func(c cmdSnap) string {
 		return fmt.Sprintf("mkCmd %s %s %s %s %s", gnat(c.ID), kit.GListOf(c.Cands, gnat), kit.GListOf(c.Latched, kit.GBool), kit.GListOf(c.Deleted, kit.GBool), kit.GZ(c.Created))
@@ -913,3 +1059,51 @@ func (s snapshot) gallina() string {
 }
 
 func gnat(n int) string { return fmt.Sprintf("%d%%nat", n) }
+
+// otherTaints: what the nodes carry besides the disruption taint: an unrelated taint, and (every third node) a
+// taint with the disruption taint's key but another effect.
+func otherTaints(id int) []corev1.Taint {
+	var ts []corev1.Taint
+	if id%2 == 1 {
+		ts = append(ts, corev1.Taint{Key: "example.com/unrelated", Value: "x", Effect: corev1.TaintEffectNoSchedule})
+	}
+	if id%3 == 2 {
+		ts = append(ts, corev1.Taint{Key: v1.DisruptedTaintKey, Effect: corev1.TaintEffectNoExecute})
+	}
+	return ts
+}
+
+func otherTaintsIntact(id int, node *corev1.Node) bool {
+	for _, want := range otherTaints(id) {
+		found := false
+		for _, t := range node.Spec.Taints {
+			if t.Key == want.Key && t.Effect == want.Effect && t.Value == want.Value {
+				found = true
+			}
+		}
+		if !found {
+			return false
+		}
+	}
+	return true
+}
+
+func (w *world) objState(id int) string {
+	node := &corev1.Node{}
+	if err := w.inner.Get(w.ctx, client.ObjectKey{Name: nodeName(id)}, node); err != nil {
+		return "NGone"
+	}
+	if !node.DeletionTimestamp.IsZero() {
+		return "NDeleting"
+	}
+	return "NPresent"
+}
+
+// method: commands alternate between drift and (consolidation) emptiness, so that the disruption reason and the
+// consolidation type take two values
+func (w *world) method(k int) disruption.Method {
+	if k%2 == 0 {
+		return disruption.NewDrift(w.c, w.cluster, w.prov, w.recorder, w.clk)
+	}
+	return disruption.NewEmptiness(disruption.MakeConsolidation(w.clk, w.cluster, w.c, w.prov, w.cp, w.recorder, w.queue))
+}
